@@ -659,6 +659,8 @@ let q_casing (args : string list) : string =
       let st = if st = "-" then None else (match style_of_string (str_of_atom st) with Some x -> Some x | None -> failwith "unknown style") in
       hex_of_str (convert_case st (str_of_atom id))
   | ["snakify"; id] -> hex_of_str (snakify (str_of_atom id))
+  (* non-ASCII identifiers: Model/Heck.v is stated over ASCII bytes; the harness compares the real code with a Rust reference *)
+  | "convertu" :: _ | "snakifyu" :: _ -> "outside-model-domain"
   | ["stylename"; s] ->
       (match style_of_string (str_of_atom s) with
        | None -> "unknown"
